@@ -495,14 +495,21 @@ def expand(spec):
             p["max_t"] = rng.choice([8, 9, 12])
             if kind != "gp_hypertune":
                 p["brackets"] = 1
-            p["gp"]["num_init_random"] = rng.randint(2, 3)
-            p["early"] = {str(t): rng.randint(1, p["grace_period"] - 1) for t in range(2, 40) if rng.random() < 0.6}
-            p["n_workers"] = rng.randint(2, 3)
+            # few trials survive to a rung, the following ones all end early, num_init_random exceeds the survivors: the
+            # count of known configs (observed at a rung + pending) crosses num_init_random upwards (pending trials)
+            # and downwards (their early end) repeatedly
+            surv = rng.randint(1, 2)  # trials 0..surv-1 reach their rung levels, the next ones all end early
+            p["gp"]["num_init_random"] = surv + rng.randint(1, 2)
+            p["early"] = {str(t): rng.randint(1, p["grace_period"] - 1) for t in range(surv, 40)
+                          if t < surv + 8 or rng.random() < 0.5}
+            # a suggest with all other workers busy sees exactly num_init_random configs (model based); when two
+            # workers are free it sees fewer again
+            p["n_workers"] = p["gp"]["num_init_random"] - surv + 1 + (1 if p.get("type") == "stopping" else 0)
             p["fail_rate"] = 0.0
-            p["max_trials"] = rng.randint(7, 10)
-            p["max_events"] = rng.randint(26, 40)
+            p["max_trials"] = rng.randint(9, 12)
+            p["max_events"] = rng.randint(30, 44)
             p["points"] = rng.choice(["none", "default"])
-            p["policy"] = rng.choice(["eager", "round_robin", "uniform"])
+            p["policy"] = rng.choice(["burst", "round_robin", "uniform", "uniform"])
     for k_, v_ in spec.items():
         if k_ not in ("seed", "engine", "kind") and not k_.startswith("_"):
             p[k_] = v_
@@ -578,7 +585,7 @@ def build(p, seed):
         if tr:
             from syne_tune.config_space import choice as _choice
 
-            active_space = dict(space)
+            active_space = {k_: v_ for k_, v_ in space.items() if p["space"].get(k_, ["const"])[0] != "const"}
             space = dict(space, task_id=_choice(list(tr["tasks"])))
             so.update(transfer_learning_task_attr="task_id", transfer_learning_active_task=tr["active"],
                       transfer_learning_model=tr["model"])
@@ -1388,11 +1395,33 @@ def _jlog(log):
 
 
 def _child_p1(req):
+    """Uninterrupted trace. Also reports (read-only probe at every step boundary) the boundaries at which the searcher
+    knows fewer than num_init_random configs after a model-based state / of the active task in a transfer set-up:
+    the parent puts restore points there."""
+    import numpy as np
+
     p = expand(req["spec"])
-    vt, port, _, _, _ = _drive(p, req["spec"]["seed"], p.get("order"))
-    paused_at, running_at = [], []
-    # state of the virtual tuner at every step boundary is reconstructed in P2; P1 reports the trace only
-    return {"log": _jlog(port.log), "order": list(vt.actions), "events": _jlog(vt.events), "raised": _jlog(vt.raised)}
+    seed = req["spec"]["seed"]
+    np.random.seed(seed % (2**32))
+    sched, value_fn, extra_fn = build(p, seed)
+    port = RecPort(sched)
+    vt = OrderVTuner(port, vtuner_params(p, seed, p.get("order")), value_fn, extra_fn)
+    nir = (p.get("gp") or {}).get("num_init_random", 3)
+    seen_model_based, below, transfer_below, step = False, [], [], 0
+    while vt.n_events < vt.p["max_events"]:
+        pr = _phase_probe(sched.searcher)
+        if pr is not None:
+            if pr[0] >= nir and pr[2]:
+                seen_model_based = True
+            if seen_model_based and pr[0] < nir:
+                below.append(step)
+            if p.get("transfer_cfg") and pr[0] < nir <= pr[1]:
+                transfer_below.append(step)
+        if not vt.step():
+            break
+        step += 1
+    return {"log": _jlog(port.log), "order": list(vt.actions), "events": _jlog(vt.events), "raised": _jlog(vt.raised),
+            "below_steps": below, "transfer_below_steps": transfer_below}
 
 
 def _params_diag(saved, now):
@@ -1465,6 +1494,23 @@ def _restore_in_scheduler(sched, info, p=None, seed=None):
         info["params"] = _params_diag(state["model_params"], clone.model_parameters())
     except Exception:  # noqa: BLE001
         info["params"] = "unavailable"
+
+
+def _gp_models(searcher):
+    est = searcher.state_transformer.estimator
+    ests = list(est.values()) if isinstance(est, dict) else [est]
+    return [getattr(e_, "_gpmodel", None) for e_ in ests]
+
+
+def _reseed_gp_rng_like_fresh(sched, p, seed):
+    import numpy as np
+
+    saved = np.random.get_state()
+    fresh = build(p, seed)[0].searcher
+    np.random.set_state(saved)
+    for gm, gf in zip(_gp_models(sched.searcher), _gp_models(fresh)):
+        if gm is not None and gf is not None:
+            gm.random_state.set_state(gf.random_state.get_state())
 
 
 def _param_roundtrip_in_place(sched, info):
@@ -1576,6 +1622,16 @@ def _child_p2_point(p, seed, order, k, log1):
                 info["explained_by_param_roundtrip"] = bd2 is None or bd2 > d
             except Exception:  # noqa: BLE001
                 info["explained_by_param_roundtrip"] = None
+        if d is not None and d >= info["idx"] and info.get("gp_rng") == "differs":
+            # attribution for finding C16-F7: the *uninterrupted* searcher gets only the generator(s) of its GP model(s)
+            # put back to the state of a freshly constructed searcher's; if that alone reproduces the restored trace, the
+            # difference is the known loss of that generator, otherwise it is something else
+            try:
+                base = _run_to_k_then(p, seed, order, k, lambda sched, info_: _reseed_gp_rng_like_fresh(sched, p, seed))
+                bd3 = _first_diff(base["log"], info["log"], band=True)
+                info["explained_by_gp_rng"] = bd3 is None or bd3 > d
+            except Exception:  # noqa: BLE001
+                info["explained_by_gp_rng"] = None
         if d is not None:
             lo = max(0, d - 1)
             info["log"] = info["log"][lo:d + 1]
@@ -1650,8 +1706,11 @@ def run_gpclone(spec, o):
             if e[0] == "result" and e[4] == "PAUSE":
                 points.add(min(i + 1, n_steps - 1))
                 break
+        # boundaries where the searcher has fallen below num_init_random again / the active task is still below it
+        points |= set([k for k in r1.get("below_steps", []) if k < n_steps][:6])
+        points |= set([k for k in r1.get("transfer_below_steps", []) if k < n_steps][:4])
         rest = [k for k in range(1, n_steps) if k not in points]
-        points |= set(rng.sample(rest, many - len(points)))
+        points |= set(rng.sample(rest, max(0, many - len(points))))
         points = sorted(points)
     r2 = _run_child({"mode": "p2", "spec": cspec, "order": order, "points": points, "log1": log1}, timeout=600)
     model = (p.get("gp") or {}).get("model", "gp")
@@ -1727,12 +1786,13 @@ def run_gpclone(spec, o):
             continue
         elif pt.get("params") not in ("equal", "last_bits"):
             what += f":restored_model_params_{pt.get('params')}"
-        elif pt.get("gp_rng") == "differs":
+        elif pt.get("gp_rng") == "differs" and pt.get("explained_by_gp_rng"):
             what += ":gp_model_random_state_not_restored"
         o.violate("continuation_equal", f"gpclone:{kind}:{what}:model={model}:template={p['template']}",
                   {"restore_point_k": k, "first_difference_at_call": d, "calls_after_restore": d - idx,
                    "uninterrupted": e1, "restored": e2, "restored_model_params_vs_snapshot": pt.get("params"),
                    "gp_model_random_state_after_restore": pt.get("gp_rng"),
+                   "explained_by_gp_model_random_state_alone": pt.get("explained_by_gp_rng"),
                    "explained_by_param_roundtrip": pt.get("explained_by_param_roundtrip"),
                    "paused_at_snapshot": pt["paused"], "running_at_snapshot": pt["running"],
                    "gp_options": p.get("gp"), "type": p.get("type")})
